@@ -74,13 +74,17 @@ def ops_of(t):
     return {x for x in expr_ref.tokens_of(t) if x in BIN or x in UN}
 
 
-CONTEXTS = ["operand", "db", "assign", "symbol", "macro_arg", "if", "for_bound", "star_eq"]
+CONTEXTS = ["operand", "db", "assign", "symbol", "macro_arg", "if", "for_bound", "star_eq", "direct", "direct_x"]
 
 
 def program(ctx, text, defs):
     pre = "*=0x008000\n" + "".join(f"{k} := {v}\n" for k, v in defs.items())
     if ctx == "operand":
         return pre + f"lda.w #{text}\n", "w"
+    if ctx == "direct":
+        return pre + f"lda {text}\n", "direct"      # no suffix, no `#`: the operand lexer's own path (a leading parenthesised group is followed by an operator)
+    if ctx == "direct_x":
+        return pre + f"lda {text},x\n", "direct_x"
     if ctx == "db":
         return pre + f".dl {text}\n", "l"
     if ctx == "assign":
@@ -96,6 +100,19 @@ def program(ctx, text, defs):
     return pre + f"*={text}\n.db 1\n", "pos"
 
 
+def leading_group_then_operator(text):
+    depth = 0
+    for i, c in enumerate(text.strip()):
+        if c == "(":
+            depth += 1
+        elif c == ")":
+            depth -= 1
+            if depth == 0:
+                rest = text.strip()[i + 1:].strip()
+                return rest[:1] in ("+", "-", "*", "&", "|", "<", ">")
+    return False
+
+
 def check(case):
     rng = random.Random(case["seed"])
     defs = {"sa": 5, "sb": 0x1234, "sc": 0xFF}
@@ -109,7 +126,11 @@ def check(case):
         refuses = True
         want = None
     ctx = case["ctx"]
-    if ctx != "operand" and not ops_of(tree) <= DIRECTIVE_OPS:
+    if ctx in ("direct", "direct_x"):
+        # `lda (expr)` alone is an indirection, not an expression: only texts whose leading parenthesis is closed before an operator follows are direct operands
+        if want is None or not (0 <= want <= 0xFFFFFF) or text.lstrip().startswith("(") and not leading_group_then_operator(text):
+            return None, text
+    if ctx not in ("operand", "direct", "direct_x") and not ops_of(tree) <= DIRECTIVE_OPS:
         return None, text  # this context does not accept all of the expression's operators: nothing claimed
     if want is not None and abs(want) > 1 << 40:
         return None, text
@@ -124,7 +145,11 @@ def check(case):
     if res["status"] != "ok":
         return f"`{text}` = {want} rejected in context {ctx}: {(res['error'] or res['exc'] or '')[:100]}", text
     data = b"".join(b for a, b in res["blocks"])
-    if kind == "w":
+    if kind in ("direct", "direct_x"):
+        n = 1 if want <= 0xFF else 2 if want <= 0xFFFF else 3
+        opc = {"direct": (0xA5, 0xAD, 0xAF), "direct_x": (0xB5, 0xBD, 0xBF)}[kind][n - 1]
+        got, exp = data, bytes([opc] + [(want >> (8 * i)) & 0xFF for i in range(n)])
+    elif kind == "w":
         got, exp = data[1:3], bytes([want & 0xFF, (want >> 8) & 0xFF])
     elif kind == "l":
         got, exp = data[:3], bytes([(want >> (8 * i)) & 0xFF for i in range(3)])
